@@ -1,0 +1,8 @@
+//go:build !verif
+
+package math
+
+import "math/big"
+
+// verifExponent is a hook of the external verification harness; without the verif build tag it never supplies a value.
+func verifExponent() *big.Int { return nil }
